@@ -859,7 +859,11 @@ class CInterp:
             if cond.get("kind"):
                 c = self.rv(self.expr(cond, env))
                 if is_sym(c) and self.ex.concrete_int(z3.If(core.as_bool_term(c), z3.IntVal(1), z3.IntVal(0))) is None:
-                    raise Unsupported(f"loop {key} has a symbolic bound and no invariant")
+                    # a condition such as `k < n % 4` with n = 4q + r is symbolic as a term but DETERMINED by the path condition
+                    d = self.ex.determined_int(z3.If(core.as_bool_term(c), z3.IntVal(1), z3.IntVal(0)))
+                    if d is None:
+                        raise Unsupported(f"loop {key} has a symbolic bound and no invariant")
+                    c = bool(d)
                 if not self.truth(c):
                     break
             count += 1
